@@ -109,15 +109,25 @@ class Plan:
             else:
                 self.ops[(f["proc"], int(f["n"]))] = f
 
+    STICKY_KINDS = ("open-w", "write", "flush", "close", "copy-open", "copy-data", "fsync", "truncate", "mkdir")
+
     def lookup(self, proc, n, kind):
         f = self.ops.get((proc, n))
         if f is None:
+            # "the disk is full from here on": once fired, every later space-consuming operation of
+            # every process fails the same way (plan state lives in the pool owner / the single process)
+            if getattr(self, "sticky", None) is not None and kind in self.STICKY_KINDS and kind != "close":
+                self.fired.append((proc, n, kind))
+                return ["err", self.sticky, "disk-full"]
             return None
         want = f.get("kind")
         if want is not None and want != kind:
             self.skipped.append((proc, n, kind, want))
             return None
         self.fired.append((proc, n, kind))
+        if f["fault"][0] == "disk-full":
+            self.sticky = int(f["fault"][1])
+            return ["err", self.sticky, "disk-full"]
         return list(f["fault"])
 
     def at_step(self, step):
